@@ -58,6 +58,13 @@ func VerifH28FieldPaths() {
 			}
 		}
 	}
+	// mutex and bool fields may already hold a value (written the same way):
+	// their imports treat stored and new rows differently
+	if (typ == 1 || typ == 2) && verifChoice("prior", 2) == 1 {
+		pr := uint64(verifChoice("prior.row", 2))
+		_, _ = a.SetBit(pr, hot[0], nil)
+		_, _ = b.SetBit(pr, hot[0], nil)
+	}
 	// path A: one call per write, in order
 	for i := 0; i < n; i++ {
 		var err error
@@ -93,7 +100,6 @@ func VerifH28FieldPaths() {
 	for name := range b.viewMap {
 		verifAssert(a.viewMap[name] != nil, "a view written by the import exists after single writes ("+name+")")
 	}
-	r := uint64(verifChoice("probe.row", nrows))
 	c := hot[verifChoice("probe.col", 2)]
 	for name, va := range a.viewMap {
 		vb := b.viewMap[name]
@@ -105,9 +111,11 @@ func VerifH28FieldPaths() {
 			verifAssert(fa == nil && fb == nil, "same fragments through both paths ("+name+")")
 			continue
 		}
-		ba, _ := fa.bit(r, c)
-		bb, _ := fb.bit(r, c)
-		verifAssert(ba == bb, "same bits through both paths ("+name+")")
-		verifAssert(fa.row(r).Count() == fb.row(r).Count(), "same row counts through both paths ("+name+")")
+		for r := uint64(0); r < uint64(nrows); r++ {
+			ba, _ := fa.bit(r, c)
+			bb, _ := fb.bit(r, c)
+			verifAssert(ba == bb, "same bits through both paths ("+name+")")
+			verifAssert(fa.row(r).Count() == fb.row(r).Count(), "same row counts through both paths ("+name+")")
+		}
 	}
 }
